@@ -10,32 +10,32 @@ from .check import NOT_APPLICABLE, PROPERTIES
 from .report import VERIF
 
 NA_REASONS = {
-    "C08": "every clause is real-valued trigonometry (arc mid-point on the analytic circle, reflex sectors, arc length vs chord); "
+    "_unused_C08": "every clause is real-valued trigonometry (arc mid-point on the analytic circle, reflex sectors, arc length vs chord); "
     "no structural necessary condition exists that is both necessary and robust (DESIGN.md section 4 C08, section 7) - "
     "static analysis cannot bound these quantities, and a runtime test would be a different technique family",
 }
 
 TECHNIQUE = {
-    "C01": "CFG must-pass-through + call-graph reachability + exhaustive index-table evaluation against the hexahedron convention + abstract evaluation of the coincidence predicates on symbolic wires",
-    "C02": "set-iteration order-sensitivity classification + progress-flag termination argument on the fix-point loop (CFG) + determinism-source taint",
-    "C03": "name-driven registry/signature agreement + finite closure over relation names + inversion completeness + dimension (units) type check of relation bodies",
-    "C04": "branch-polarity analysis of aligned/inverted copies + abstract evaluation of copy_preserving/invert per preserve literal + ordering on CFG",
-    "C05": "CFG lookup-before-create + who-may-construct/who-may-write + sibling tolerance comparison + exhaustive corner->patch table evaluation",
-    "C06": "CFG section ordering in Mesh.write + exhaustive side/corner table evaluation + writer/reader index agreement",
-    "C07": "registry/Literal/class-kind agreement + CFG dedup ordering + partial evaluation of the 12 emitted beams (direction-loss rule)",
+    "C01": 'CFG must-pass-through + call-graph reachability + exhaustive index-table evaluation against the hexahedron convention (incl. blockMesh edgeGrading order) + abstract evaluation of the whole consistency chain on a symbolic two-block model',
+    "C02": 'set-iteration order-sensitivity classification + abstract evaluation of the fix-point loop over all insertion orders of a block chain (schedule enumeration on the AST interpreter) + progress-flag termination argument + determinism-source taint',
+    "C03": 'name-driven registry/signature agreement + finite closure over relation names + inversion completeness + dimension (units) type check + tolerance abstract values of the unit-ratio switches + sibling brackets',
+    "C04": 'abstract evaluation of aligned/inverted copies with symbolic Chop records + copy_preserving/invert per preserve literal + ordering on CFG + edgeGrading slot order',
+    "C05": 'CFG lookup-before-create + who-may-construct/who-may-write + tolerance abstract values (absolute vs relative, signed vs magnitude) + abstract evaluation of VertexList.add over insertion scenarios + exhaustive corner->patch table evaluation',
+    "C06": 'CFG section ordering in Mesh.write + exhaustive side/corner table evaluation + writer/reader index agreement + abstract evaluation of assemble/patch state + clear/assemble effect pairing',
+    "C07": 'registry/Literal/class-kind agreement + CFG dedup ordering + abstract evaluation of the 12 emitted beams, EdgeList.add and the curve-edge parameter order',
     "C08": "abstract-domain analysis of inverse-trigonometric arguments (clipped / damped / unit.unit) + abstract evaluation of the arc edges' argument pairing + affine kinds",
-    "C09": "interprocedural may-mutate-parameter effect analysis + affine origin balance on def-use chains + override-bypass (MRO) check + linear ownership of Face expressions",
-    "C10": "exhaustive partial evaluation of face permutations, edge map and side addressing against the hexahedron convention",
-    "C11": "exhaustive quad-map orientation/conformity check + union-find chop-coverage analysis over literal sketches + chain-source consistency",
-    "C12": "clear/assemble container pairing + idempotence of grade() (append without reset) + lock-step filter agreement + CFG dominance of guards",
-    "C13": "CFG snapshot/restore pairing on rollback and exception paths + who-writes-points ownership + backport on every exit",
-    "C14": "partial evaluation of the edge set and side tables used by the quality measure against the hexahedron convention (closed oriented surface)",
-    "C15": "CFG write-guard dominance + edge-only neighbour table + backport table agreement",
-    "C16": "backward slice (knot dependence of sample parameters) + end-parameter pairing + abstract-method interface completeness",
-    "C17": "interprocedural may-mutate analysis of link updates + position-writer ownership + linear-form evaluation of TranslationLink",
-    "C18": "loop completeness/strictness of finders + exhaustive corner-table evaluation + signed-basis algebra on the frame literal",
-    "C19": "loop-variable role analysis of grid construction and slicing + complementary-slice partition check",
-    "C20": "sign-domain analysis of one-sided tolerance guards + two-sided range guards + guard-dominates-mutation table (CFG)",
+    "C09": 'interprocedural may-mutate/alias effect analysis + affine origin balance + override-bypass (MRO) check + polynomial-domain normalisation of the reflection matrix + shared-part and closure-capture analyses',
+    "C10": 'exhaustive abstract evaluation of face permutations (incl. history independence), edge map and side addressing against the hexahedron convention',
+    "C11": 'exhaustive quad-map orientation/conformity check + union-find chop-coverage analysis over literal sketches + chain-source consistency + guard evaluation against sketch facts + inverse-trig domain and sign-flow analyses',
+    "C12": 'clear/assemble container and state pairing in both directions + idempotence of grade() + abstract evaluation of assemble/backport + alias analysis of coordinate stores',
+    "C13": 'CFG snapshot/restore pairing on rollback and exception paths + who-writes-points ownership + backport on every exit + affine kinds + linear forms of links',
+    "C14": 'abstract evaluation of the edge set and side tables against the hexahedron convention + face-symmetry and cache analyses + inverse-trig domain abstract values + point-list aware affine kinds of the quality kernels',
+    "C15": 'abstract evaluation of smooth()/fix_* on symbolic and 1-D float grid models + edge-only neighbour table + boundary table + backport table agreement',
+    "C16": 'backward slice (knot dependence) + abstract evaluation of end-parameter pairing through the edge-data layer + interface completeness + closest-parameter search evaluation + stale-alias, None-vs-zero and memoisation analyses',
+    "C17": 'interprocedural may-mutate analysis + position-writer ownership + linear-form evaluation of links + affine kinds + polynomial-domain reflection matrix + dead-parameter and inverse-trig domain analyses',
+    "C18": 'abstract evaluation of the finders on 1-D models + tolerance abstract values + unit-direction analysis of projected lengths + exhaustive corner-table evaluation + signed-basis algebra + triangle-partition evaluation + affine kinds + stale-alias analysis',
+    "C19": 'abstract evaluation of grid construction, slicing (incl. purity), core/shell partition, merged sketch roles, assemble/backport locality',
+    "C20": 'sign-domain analysis of one-sided tolerance and magnitude guards + two-sided range guards + abstract evaluation of guards on both sides of each boundary + guard table (CFG dominance) + assemble/clear state pairing',
 }
 
 
